@@ -2,7 +2,7 @@
 
    What is proved here, from C04 (Proofs/TcpRecvTheorems.v), C05 (through the single statement
    [c05_contract], Proofs/TcpNetContract.v, itself assembled from C05's theorems in
-   Proofs/TcpNetTx.v under the premise [c05_ka_bound]) and "channel is a subset of emitted":
+   Proofs/TcpNetTx.v and TcpSendKa.v) and "channel is a subset of emitted":
      chan_sub_sent             everything in flight was emitted by the other socket
      e2e_prefix                in every reachable state, what each application has read is a
                                prefix of what the peer application has written (both directions)
@@ -14,7 +14,7 @@
                                retransmission, sequence numbers wrapping 2^32) run by vm_compute. *)
 From SV Require Import Lib.Base Gen.Consts.
 From SV Require Import Model.Seq32 Model.Assembler Model.TcpBuf Model.TcpTypes Model.Tcp Model.TcpNet.
-From SV Require Import Proofs.TcpSendBase Proofs.TcpSendInv Proofs.TcpSendTrace.
+From SV Require Import Proofs.TcpSendBase Proofs.TcpSendInv Proofs.TcpSendTrace Proofs.TcpSendKa.
 From SV Require Import Proofs.TcpNetBase Proofs.TcpNetFrame Proofs.TcpNetContract Proofs.TcpNetTx
   Proofs.TcpNetCompose Proofs.TcpNetInv.
 
@@ -29,11 +29,21 @@ Definition finished_complete (st : net) : Prop :=
   (ep_finished (n_b st) = true -> ep_read (n_b st) = ep_written (n_a st)) /\
   (ep_finished (n_a st) = true -> ep_read (n_a st) = ep_written (n_b st)).
 
-(* Everything C01 consumes from C05 is proved (Proofs/TcpNetTx.v: c05_contract_of_ka) except where
-   a keep-alive probe sits, [c05_ka_bound]. *)
+(* Everything C01 consumes from C05 is proved: the contract is assembled in Proofs/TcpNetTx.v
+   (c05_contract_of_ka) and its one premise, the position of a keep-alive probe, is C05's
+   TcpSendKa.keep_alive_below_una (proved after the D23 repair: the RTT estimator is reset when a
+   listener falls back to LISTEN). *)
+Lemma c05_ka_holds : c05_ka_bound.
+Proof.
+  intros cx g s e s' p tags Hinv Hcx Hm Hlive H Htag.
+  exact (keep_alive_below_una cx g s e s' p tags Hinv Hcx (proj1 Hm) Hlive H Htag).
+Qed.
+
+Lemma c05_holds : c05_contract.
+Proof. exact (c05_contract_of_ka c05_ka_holds). Qed.
+
 Section FromContract.
-  Hypothesis ka : c05_ka_bound.
-  Let c05 : c05_contract := c05_contract_of_ka ka.
+  Let c05 : c05_contract := c05_holds.
 
   Theorem e2e_prefix_c ca cb st0 evs st :
     cfg_ok ca -> cfg_ok cb -> net_init ca cb = Ok st0 ->
